@@ -69,6 +69,41 @@ def route_pass(ctx):
                         pass
 
 
+def kind_pass(ctx):
+    """`x.dual(kind=..)` / `x.undual(kind=..)`: an explicitly requested kind is that map in every algebra (`'hodge'` is
+    `x.hodge()`, `'polarity'` is `x.polarity()` - or raises what that raises in a degenerate metric), `'auto'` is the polarity
+    for r = 0 and the Hodge dual for r = 1"""
+    from fractions import Fraction
+    from kingdon import MultiVector
+    rng = ctx.rng
+    def outcome(thunk):
+        try:
+            return mv_to_dict(thunk())
+        except Exception as ex:
+            return 'raises ' + type(ex).__name__
+    for sig in ([1, 1, 1], [1, -1], [0, 1, 1], [0, 1, 1, 1], [1, 0, 0], [0, 0], [1], [], [1, 1, 1, -1], [0, 1, -1, 0]):
+        alg = make_algebra(sig)
+        full = list(alg.canon2bin.values())
+        r = list(sig).count(0)
+        pats = [full] + [t if t is not None else full for t in key_tuples(rng, alg.d, 3, ['subset', 'grades', 'small'])]
+        for kx in pats:
+            x = MultiVector.fromkeysvalues(alg, tuple(kx), [Fraction(rng.randint(1, 9)) for _ in kx])
+            for direction, hodge, polar in (('dual', 'hodge', 'polarity'), ('undual', 'unhodge', 'unpolarity')):
+                table = {'hodge': hodge, 'polarity': polar}
+                if r == 0:
+                    table['auto'] = polar
+                elif r == 1:
+                    table['auto'] = hodge
+                for kind, meth in table.items():
+                    case = {'sig': sig, 'kx': list(kx), 'call': f'x.{direction}(kind={kind!r})', 'expected_as': f'x.{meth}()'}
+                    ctx.case(case, tag='dual-kind')
+                    exp = outcome(lambda: getattr(x, meth)())
+                    got = outcome(lambda: getattr(x, direction)(kind=kind))
+                    if exp != got:
+                        ctx.violation('dual-kind', case, str(exp)[:200], str(got)[:200], key=f'dual-kind:{direction}:{kind}')
+                        break
+
+
 def run(ctx):
     ctx.rule = ('hodge, unhodge, polarity, unpolarity on key tuples and rp on ordered key-tuple pairs, for all signatures d<=3 '
                 '(sampled d=4; d<=4 all in thorough, sampled to 6), custom and named bases: compared as polynomial maps with the '
@@ -183,4 +218,5 @@ def run(ctx):
     R.flush()
     wrapper_history_pass(ctx, ['rp'])
     route_pass(ctx)
+    kind_pass(ctx)
     ctx.assumptions = ['polarity/unpolarity are generated through sympy (RationalPolynomial -> lambdify with CSE): trusted printer']
